@@ -820,8 +820,10 @@ pub fn lifecycle<K: Kmer + Send + Sync>(sink: &Sink, r: &mut Rng, inp: &GInput) 
                 }
             }
         } else if choice == 1 {
-            let use_valid = r.chance(1, 2);
-            let valid: Vec<usize> = (0..cur.len()).filter(|_| r.chance(4, 5)).collect();
+            // fix_exts(None) only: with a proper subset of valid nodes the result is not a valid graph on its own (it is an
+            // intermediate state of compress_graph, covered by the stand-alone `fixexts` event)
+            let use_valid = false;
+            let valid: Vec<usize> = (0..cur.len()).collect();
             let desc = json!({"op":"lc_fixexts","K":inp.k,"cur":nodes_json(&cur),"use_valid":use_valid,"valid":valid,"fam":inp.fam,"reads":inp.reads});
             let case = sink.begin_case(&desc);
             let res = guard(|| {
